@@ -31,7 +31,7 @@ ASSUMPTIONS = ["max_data_age 5 s, max blocking duration 30 s (min 1 s: repo defa
 BOUNDS = {"quick": "4 arbitrary events (safety + exact expected status + notify-on-change); 5 events with healthy fresh data for the blocking ladder",
           "thorough": "5 arbitrary events; 7 events for the blocking ladder (durations 1, 2, 4, ... capped at 30 s)"}
 OUTSIDE = "the real select/Timer implementations; EV-charger and PV status trackers; ComponentPoolStatusTracker fan-in (only get_working_components)"
-BUDGET = {"quick": 400, "thorough": 3000}
+BUDGET = {"quick": 900, "thorough": 1800}
 MAXAGE = timedelta(seconds=5)
 MAXBLOCK = timedelta(seconds=30)
 US = timedelta(microseconds=1)
